@@ -17,8 +17,11 @@ META = {
   "h_hist": {"kind": "G", "functions": _FUNCS,
     "bounds": "base states gfa1, gfa2 (quick) + gfa1b, gfa2b (thorough) x every history of 2 steps over {add_line(pool: fresh ids, ids in use by the same / another record type, group merges, equal and complement links), rename(any identified line -> fresh name | name of a segment | name of another record type | integer-looking name)}; after every step: names pairwise distinct, line()/try_get_line()/segment() coherent for every pool name, refusals are NotUniqueError, text after a successful step equals the text model",
     "timeout": {"quick": 400, "thorough": 1500}, "parts": {"quick": 16, "thorough": 16}},
+  "h_rename_levels": {"kind": "L/G", "functions": ["FieldData._set_existing_field (rename)", "Creators._register_line/_unregister_line", "Finders.line/names"],
+    "bounds": "the 4 base states read at vlevel 0..3; every identified line renamed to each of the 6 rename targets (fresh, in use by the same / another record type, numeric, placeholder id, '*'): same outcome class at every level as the oracle of h_hist (refused with NotUniqueError and nothing changed, or renamed everywhere)",
+    "timeout": {"quick": 300, "thorough": 600}, "parts": {"quick": 8, "thorough": 8}},
   "h_unused_name": {"kind": "K/G", "functions": ["Collections.unused_name", "Creators._register_line (max int name)", "Gfa.add_line"],
-    "bounds": "segments named str(n) for symbolic n in 0..30 (quick) / 0..99 (thorough) and str(m), m in {n+1, n+2, 7}; k in 1..2 successive unused_name() calls, each followed by adding a segment under that name",
+    "bounds": "segments named str(n) for symbolic n in 0..30 (quick) / 0..99 (thorough) and str(m), m in {n+1, n+2, 7}, optionally a segment renamed to str(m+1); k in 1..2 successive unused_name() calls, each followed by adding a segment under that name",
     "timeout": {"quick": 200, "thorough": 600}, "parts": {"quick": 4, "thorough": 4}},
  },
 }
@@ -41,7 +44,7 @@ def h_hist(bi: int, c1: int, c2: int) -> bool:
   if c1 >= len(tab) or c2 >= len(tab): return True
   return H.run(base, tab, [c1, c2], "C09", "h")
 
-def h_unused_name(n: int, j: int, k: int) -> bool:
+def h_unused_name(n: int, j: int, k: int, ren: bool) -> bool:
   """
   pre: 0 <= n <= NMAX and 0 <= j <= 2 and 1 <= k <= 2
   pre: n % NPART == PART
@@ -54,8 +57,11 @@ def h_unused_name(n: int, j: int, k: int) -> bool:
   m = [n + 1, n + 2, 7][vp.concretize(j, 0, 2)]
   if m != n:
     g.add_line("S\t" + str(m) + "\t*")
+  if ren:
+    # an integer-looking name may also come from a rename
+    g.segment("x").name = str(max(n, m) + 1)
   kk = vp.concretize(k, 1, 2)
-  vp.reached("u", kk)
+  vp.reached("u", kk, ren)
   for _ in range(kk):
     name = g.unused_name()
     if g.line(name) is not None: return False
@@ -64,3 +70,42 @@ def h_unused_name(n: int, j: int, k: int) -> bool:
     if g.segment(name) is None: return False
   names = g.names
   return len(names) == len(set(names))
+
+
+def h_rename_levels(bi: int, ni: int, ti: int, vl: int) -> bool:
+  """
+  pre: 0 <= bi < 4 and 0 <= ni < 16 and 0 <= ti < 6 and 0 <= vl <= 3
+  pre: (ni + ti) % NPART == PART
+  post: _ == True
+  """
+  vp.enter("rl")
+  base = vp.pick(BASEKEYS, bi)
+  names = H.NAMES[base]
+  if ni >= len(names) - 1: return True
+  name = names[vp.concretize(ni, 0, len(names) - 2)]
+  target = H.rename_targets(base)[vp.concretize(ti, 0, 5)]
+  level = vp.concretize(vl, 0, 3)
+  with NoTracing():
+    g = gfapy.Gfa(list(H.BASES[base]), vlevel=level)
+    line = g.line(name)
+    if line is None: return True              # (an identifier carried by an L/C line: see the listed finding)
+    names_before = sorted(str(x) for x in g.names)
+    taken = target in names_before and target != name
+  vp.reached("rl", base, name, target, level)
+  try:
+    line.name = target
+  except gfapy.NotUniqueError:
+    with NoTracing():
+      return taken and sorted(str(x) for x in g.names) == names_before and g.line(name) is line
+  except gfapy.Error:
+    with NoTracing():
+      # any other refusal (e.g. an identifier which only exists as a placeholder) leaves the names alone
+      return sorted(str(x) for x in g.names) == names_before and g.line(name) is line
+  with NoTracing():
+    if taken: return False                    # renamed onto an identifier in use
+    after = sorted(str(x) for x in g.names)
+    if target != "*":
+      if g.line(target) is not line: return False
+      if name != target and g.line(name) is not None and not g.line(name).virtual: return False
+      return after == sorted([x for x in names_before if x != name] + [target])
+    return len(after) == len(set(after)) and name not in after
